@@ -674,7 +674,13 @@ func (en *Engine) GoexitShutdown(n, q, k, lane int) {
 	long.Release()
 	select {
 	case <-done:
+		en.reached["goexit/wait-returned"]++
 	case <-time.After(LiveBound):
+		// not judged: C07 promises Wait() "once every started task has RETURNED", and the Goexit task never did; an
+		// implementation whose bookkeeping is skipped by Goexit may wait for ever. The process is abandoned (family ends).
+		en.unreached["goexit/wait-returned"]++
+		r.stuck.Store(true)
+		return
 	}
 	en.Shutdown(r, true)
 }
